@@ -449,6 +449,27 @@ pub fn bound_parts(spec: &SpaceSpec) -> Vec<BoundPart> {
     }
 }
 
+/// A state in the middle of the bounds (box centre, arc midpoint, normalised cone centre): where
+/// the harness places things when the library's own sampler refuses to deliver.
+pub fn centre_state(spec: &SpaceSpec) -> St {
+    let mut out = vec![];
+    for p in bound_parts(spec) {
+        match p {
+            BoundPart::Box(b) => out.extend(b.iter().map(|(lo, hi)| if lo.is_finite() && hi.is_finite() { 0.5 * (lo + hi) } else { 0.0 })),
+            BoundPart::Arc(lo, hi) => out.push(0.5 * (lo + hi)),
+            BoundPart::Cone(c, _) => {
+                let n = c.iter().map(|x| x * x).sum::<f64>().sqrt();
+                if n > 0.0 {
+                    out.extend(c.iter().map(|x| x / n));
+                } else {
+                    out.extend([0.0, 0.0, 0.0, 1.0]);
+                }
+            }
+        }
+    }
+    out
+}
+
 /// How far outside the bounds a flat state is (0 when inside), and which kind of bound it
 /// leaves ("box", "arc", "cone").
 pub fn bounds_excess(spec: &SpaceSpec, v: &[f64]) -> (f64, &'static str) {
